@@ -9,7 +9,9 @@ from vlib.core import SplitMix
 
 UNIT = 2 ** 50
 ROUTED = ("full", "floyd", "dijkstra", "dijkstracache")
-KEY_BYPASS_DIJKSTRA = "bypass-tail-in-dijkstra-zone"
+# The defect `bypass-tail-in-dijkstra-zone` is fixed (fix_series/01-…): the model follows the fixed code, a monitor failure
+# is a plain violation (no classification key any more); its witness is the corpus case `bypass-dijkstra`, the generator
+# feature `bypass-into-dijkstra` and the theorem `global_route_is_concat_prefix_counterexample`.
 
 
 def hexlat(rng):
@@ -445,27 +447,6 @@ def load_corpus(path):
     return cases
 
 
-def classify(case_lines, q):
-    """classification key of a monitor failure: the minimal witness class it belongs to"""
-    kinds = {}
-    npz = {}
-    for l in case_lines:
-        t = l.split()
-        if t[0] == "zone":
-            kinds[int(t[1])] = t[3]
-        elif t[0] == "np":
-            npz[int(t[1])] = int(t[2])
-    has_bypass = any(l.startswith("bypass ") for l in case_lines)
-    t = q.split()
-    if has_bypass and len(t) >= 3:
-        dz = npz.get(int(t[2]))
-        sz = npz.get(int(t[1]))
-        if (dz is not None and kinds.get(dz, "").startswith("dijkstra")) or \
-           (sz is not None and kinds.get(sz, "").startswith("dijkstra")):
-            return KEY_BYPASS_DIJKSTRA
-    return None
-
-
 def run(ctx):
     ctx.cov["rule"] = ("platforms drawn from splitmix64(VERIF_SEED, index): 1-3 levels below the root, <= 40 hosts, zone kinds "
                        "Full/Floyd/Dijkstra/DijkstraCache/Star/Empty/Vivaldi, symmetric / one-way / missing routes, 1-3 links per "
@@ -561,7 +542,7 @@ def run(ctx):
                 continue
             case = {"lines": cur_lines, "query": l, "verdict": v}
             if v.startswith("MONFAIL"):
-                ctx.violation(v, case, key=classify(cur_lines, l.split(" => ")[0]))
+                ctx.violation(v, case)
             elif v.startswith("DISAGREE"):
                 # model (the code as read) and implementation differ although the monitor holds / has nothing to say
                 ctx.broken.append({"kind": "correspondence", "line": l, "verdict": v[:300], "case": cur_lines[0]})
